@@ -162,10 +162,12 @@ def build(t, v, exprs):
         return '%s { %s }' % (c, ', '.join('%s: %s' % (f.name, e) for f, e in zip(v.fields, exprs)))
     return '%s(%s)' % (c, ', '.join(exprs))
 
-def values_fn(t, r, cap=48):
+REF_ATOM = re.compile(r"^&'static (?:mut )?A<(\d+)>$")
+def values_fn(t, r, cap=48, refs=False):
     vals = []
-    t.xvalues = []          # structured copy of the values, for the model cross-check (atoms only)
-    atoms = all(re.match(r'^A<\d+>$', f.ft.rust) for v in t.variants for f in v.fields)
+    t.xvalues = []          # structured copy of the values, for the model cross-check (atoms only;
+                            # refs: also `&'static [mut] A<k>` fields, as ('R', atom) = a reference to that atom)
+    atoms = all(re.match(r'^A<\d+>$', f.ft.rust) or (refs and REF_ATOM.match(f.ft.rust)) for v in t.variants for f in v.fields)
     for v in t.variants:
         combos = list(itertools.product(*[f.ft.vals for f in v.fields]))
         per = max(3, cap // max(1, len(t.variants)))
@@ -176,8 +178,13 @@ def values_fn(t, r, cap=48):
             if atoms:
                 fs = []
                 for i, (f, e) in enumerate(zip(v.fields, c)):
+                    key = f.name if f.name is not None else str(i)
+                    m = REF_ATOM.match(f.ft.rust)
+                    if m:
+                        fs.append((key, ('R', 1000 * int(m.group(1)) + int(re.search(r'A\((\d+)\)', e).group(1)))))
+                        continue
                     k = int(f.ft.rust[2:-1]); x = int(e[2:-1])
-                    fs.append((f.name if f.name is not None else str(i), 1000 * k + x))
+                    fs.append((key, 1000 * k + x))
                 t.xvalues.append((v.name, fs))
     if not atoms:
         t.xvalues = None
@@ -189,7 +196,8 @@ def q(s):
 def xvalues_sx(t):
     out = []
     for vn, fs in t.xvalues:
-        out.append('(D %s (%s))' % ('None' if vn is None else '(Some %s)' % q(vn), ' '.join('(%s %s)' % (q(k), q(str(z))) for k, z in fs)))
+        out.append('(D %s (%s))' % ('None' if vn is None else '(Some %s)' % q(vn),
+                                    ' '.join('(%s %s)' % (q(k), '(R %s)' % q(str(z[1])) if isinstance(z, tuple) else q(str(z))) for k, z in fs)))
     return '(' + ' '.join(out) + ')'
 
 def dinput_sx(t):
@@ -770,6 +778,7 @@ class DefaultSuite(Suite):
         if new:
             tparams.append(pick(r, ['new', 'new = true', 'new(true)']))
         texpr = None
+        xscope = True       # model cross-check: every designated value is a literal / A(n) / Some(n) / None or the type's default
         if r.random() < 0.12:
             # type-level expression: build an explicit value
             v = pick(r, t.variants)
@@ -785,6 +794,8 @@ class DefaultSuite(Suite):
                 if r.random() < 0.55:
                     val, exp = pick(r, f.ft.defs)
                     f.at['_metas'] = [sp_default_value(r, val)]
+                    if val.startswith('String::'):
+                        xscope = False          # a call: opaque to the model's interpreter (user expressions are tokens)
                     ex.append(exp)
                 else:
                     ex.append(f.ft.dflt)
@@ -795,8 +806,13 @@ class DefaultSuite(Suite):
         checks = ['let g = <T as ::core::default::Default>::default(); let e = o_default(); out.check(show(&g) == show(&e), "%s", "default", || format!("default() = {} expected {}", show(&g), show(&e)));' % tid]
         if new:
             checks.append('let g = T::new(); let e = o_default(); out.check(show(&g) == show(&e), "%s", "new", || format!("new() = {} expected {}", show(&g), show(&e)));' % tid)
+        xops = []
+        if xscope and texpr is None:
+            t.xvalues = []
+            xops = ['default']
+            checks.append('println!("RES\\t%s\\tdefault\\t{}\\u{1}", show(&<T as ::core::default::Default>::default()));' % tid)
         fns.append('pub fn run(out: &mut Out) { %s }' % ' '.join(checks))
-        return t, module(t, '\n'.join(fns), 1), dict(values=1, new=new)
+        return t, module(t, '\n'.join(fns), 1), dict(values=1, new=new, xops=xops)
 
 class DerefSuite(Suite):
     name = 'deref'
@@ -838,8 +854,19 @@ class DerefSuite(Suite):
         t.type_attrs = [', '.join(ta)]
         tgt = 'A<%d>' % target_k
         darms = ['%s => %s as *const %s' % (pat(t, v, 'p', only={di}), ('&**p%d' % di) if ref_field else 'p%d' % di, tgt) for v, di, mi in plans]
-        vf, nv = values_fn(t, r, cap=16)
+        vf, nv = values_fn(t, r, cap=16, refs=True)
         fns = [vf, show_fn(t), 'pub fn o_deref(x: &T) -> *const %s { match x { %s } }' % (tgt, ', '.join(darms))]
+        # model cross-check: WHICH field's storage (`key`), or which reference field's referent (`*key`), an address is
+        karms = []
+        for v in t.variants:
+            tests = []
+            for i, f in enumerate(v.fields):
+                key = f.name if f.name is not None else str(i)
+                if REF_ATOM.match(f.ft.rust):
+                    tests.append('if (&**p%d) as *const _ as *const u8 == g { return "*%s".to_string(); }' % (i, key))
+                tests.append('if p%d as *const _ as *const u8 == g { return "%s".to_string(); }' % (i, key))
+            karms.append('%s => { %s }' % (pat(t, v, 'p'), ' '.join(tests)))
+        fns.append('pub fn key_of(x: &T, g: *const u8) -> String { match x { %s } "?".to_string() }' % ', '.join(karms))
         fns.append('pub fn target_of<D: ::core::ops::Deref>(d: &D) -> (*const u8, usize) where D::Target: Sized { (::core::ops::Deref::deref(d) as *const D::Target as *const u8, ::core::mem::size_of::<D::Target>()) }')
         checks = ['for a in &vs { let g = ::core::ops::Deref::deref(a) as *const %s; let e = o_deref(a); out.check(g == e, "%s", "deref", || format!("&*{} has another address than the designated field", show(a)));'
                   ' let (g2, sz) = target_of(a); out.check(g2 == e as *const u8 && sz == ::core::mem::size_of::<%s>(), "%s", "deref_target", || format!("<T as Deref>::Target is not the designated field\'s (referent) type, or &*{} has another address", show(a))); }' % (tgt, tid, tgt, tid)]
@@ -852,8 +879,16 @@ class DerefSuite(Suite):
                           ' out.check(g == e, "%s", "deref_mut", || format!("&mut *{} has another address than the designated field", show(&x)));'
                           ' let mut y = values().swap_remove(i); o_write(&mut y); *::core::ops::DerefMut::deref_mut(&mut x) = A(99);'
                           ' out.check(show(&x) == show(&y), "%s", "deref_mut_write", || format!("after a write through &mut *x: {} expected {}", show(&x), show(&y))); }' % (tgt, tid, tid))
+        xops = []
+        if t.xvalues is not None:
+            xops.append('deref')
+            checks.append('let mut res = String::new(); for a in &vs { let g = ::core::ops::Deref::deref(a) as *const %s as *const u8; res.push_str(&key_of(a, g)); res.push(\'\\u{1}\'); } println!("RES\\t%s\\tderef\\t{}", res);' % (tgt, tid))
+            if mut:
+                xops += ['deref_mut', 'deref_mut_write']
+                checks.append('let mut res = String::new(); for i in 0..vs.len() { let mut x = values().swap_remove(i); let g = ::core::ops::DerefMut::deref_mut(&mut x) as *mut %s as *const u8; res.push_str(&key_of(&x, g)); res.push(\'\\u{1}\'); } println!("RES\\t%s\\tderef_mut\\t{}", res);' % (tgt, tid))
+                checks.append('let mut res = String::new(); for i in 0..vs.len() { let mut x = values().swap_remove(i); *::core::ops::DerefMut::deref_mut(&mut x) = A(99); res.push_str(&show(&x)); res.push(\'\\u{1}\'); } println!("RES\\t%s\\tderef_mut_write\\t{}", res);' % tid)
         fns.append('pub fn run(out: &mut Out) { let vs = values(); %s }' % ' '.join(checks))
-        return t, module(t, '\n'.join(fns), nv), dict(values=nv, mut=mut)
+        return t, module(t, '\n'.join(fns), nv), dict(values=nv, mut=mut, xops=xops)
 
 class IntoSuite(Suite):
     name = 'into'
@@ -932,8 +967,13 @@ class IntoSuite(Suite):
             fns.append('pub fn o_into_%d(x: T) -> %s { match x { %s } }' % (k, tg, ', '.join(arms)))
             checks.append('for i in 0..n { let a = values().swap_remove(i); let shown = show(&a); let g: %s = ::core::convert::Into::into(a); let e = o_into_%d(values().swap_remove(i));'
                           ' out.check(sv(&g) == sv(&e), "%s", "into", || format!("Into::<%s>::into({}) = {} expected {}", shown, sv(&g), sv(&e))); }' % (tg, k, tid, tg))
+        xops, xextra = [], {}
+        if t.xvalues is not None and not any(tg in exotic for tg in targets):
+            for k, tg in enumerate(targets):
+                xops.append('into%d' % k); xextra['into%d' % k] = tg
+                checks.append('let mut res = String::new(); for i in 0..n { let a = values().swap_remove(i); let g: %s = ::core::convert::Into::into(a); res.push_str(&sv(&g)); res.push(\'\\u{1}\'); } println!("RES\\t%s\\tinto%d\\t{}", res);' % (tg, tid, k))
         fns.append('pub fn run(out: &mut Out) { let n = values().len(); %s }' % ' '.join(checks))
-        return t, module(t, '\n'.join(fns), nv), dict(values=nv, targets=targets)
+        return t, module(t, '\n'.join(fns), nv), dict(values=nv, targets=targets, xops=xops, xextra=xextra)
 
 class UnionSuite(Suite):
     name = 'union'
@@ -1452,7 +1492,11 @@ def run(pid, suites, tier, seed, n=None, hostile=False, only_ops=None):
             for op in meta['xops']:
                 if (tid, op) in real_res:
                     try:
-                        xcases.append(('RUN', '%s:%s' % (tid, op), op, dinput_sx(t), xvalues_sx(t)))
+                        case = ('RUN', '%s:%s' % (tid, op), op, dinput_sx(t), xvalues_sx(t))
+                        if op in meta.get('xextra', {}):
+                            import dinput as D
+                            case += (D.sx_text(meta['xextra'][op]),)      # the Into target's tokens
+                        xcases.append(case)
                     except Exception as e:
                         pass
         xstats = dict(compared=0, agree=0, model_stuck=0)
